@@ -10,6 +10,7 @@ import (
 	"verif/harness"
 	"verif/peer"
 	"verif/ref"
+	"verif/vsched"
 )
 
 // C01 — every multiplexed request reaches the handler once, intact, and the
@@ -484,6 +485,9 @@ func c01BlockLen(p c01Plan) int {
 
 func runC01(c *fw.Ctx) {
 	runSpxFamily(c, "C01")
+	if vsched.DefaultPolicy == 0 {
+		runC01Table(c)
+	}
 	thorough := c.Tier == "thorough"
 	var item int64
 	sampled := 0
@@ -776,6 +780,13 @@ func permutations(n int) [][]int {
 }
 
 func replayC01(raw json.RawMessage) (string, bool) {
+	var fam struct {
+		Family string `json:"family"`
+	}
+	json.Unmarshal(raw, &fam)
+	if fam.Family == "c01table" {
+		return replayC01Table(raw)
+	}
 	var r struct {
 		Scenario c01Scenario `json:"scenario"`
 	}
